@@ -87,7 +87,7 @@ def gen(r, tier):
     early = any(o["t"] < 1.5 and o["op"] in ("reg", "icmp", "senderr") for o in ops)
     return {"observers": observers, "ops": ops, "net": faults.swarm(r, kinds=("drop", "dup", "delay"), fault_free=0.35),
             "render_delay": r.choice([0.05, 0.05, 0.005]) if early else r.choice([0, 0, 0.0005, 0.005, 0.05]), "same_host": r.chance(0.3),
-            "partition": part}
+            "partition": part, "slow_unwind": r.chance(0.3)}
 
 
 def systematic(tier):
@@ -106,10 +106,11 @@ def systematic(tier):
                         ("shutdown", {})):
         for dt in (0.006, 0.02, 0.045):
             op = dict({"op": kind, "t": round(0.1 + dt, 4), "observer": 0}, **extra)
-            out.append({"observers": [{"id": 0, "con": True, "t": 0.1, "reactions": ["ack"] * 12},
-                                      {"id": 1, "con": False, "t": 0.5, "reactions": ["ack"] * 12}],
-                        "ops": sorted([op, {"op": "change", "t": 2.0, "n": 1}, {"op": "change", "t": 4.0, "n": 2}],
-                                      key=lambda o: o["t"]), "net": {}, "render_delay": 0.05})
+            for su in (False, True):
+                out.append({"observers": [{"id": 0, "con": True, "t": 0.1, "reactions": ["ack"] * 12},
+                                          {"id": 1, "con": False, "t": 0.5, "reactions": ["ack"] * 12}],
+                            "ops": sorted([op, {"op": "change", "t": 2.0, "n": 1}, {"op": "change", "t": 4.0, "n": 2}],
+                                          key=lambda o: o["t"]), "net": {}, "render_delay": 0.05, "slow_unwind": su})
     for react in ("rst", "rereg", "dereg"):
         for pos in (0, 1):
             for con in (True, False):
@@ -279,7 +280,10 @@ def execute(sim, scn):
     class Counter(resource.ObservableResource):
         def __init__(self):
             super().__init__()
-            self._observations = OrderedSet()
+            if isinstance(self._observations, set):
+                # (iteration order of a set of objects depends on their addresses; whatever else the library may use
+                # for its book-keeping is left alone)
+                self._observations = OrderedSet()
             self.state = 0
             self.counts = []
             self.changes = []
@@ -310,7 +314,14 @@ def execute(sim, scn):
             sim.log("app", "render", len(renders) - 1, self.state)
             state, serial = self.state, len(renders) - 1
             if scn.get("render_delay"):
-                await asyncio.sleep(scn["render_delay"])  # the state was read before: a change may land meanwhile
+                try:
+                    await asyncio.sleep(scn["render_delay"])  # the state was read before: a change may land meanwhile
+                finally:
+                    if scn.get("slow_unwind"):
+                        # clean-up that needs the loop once more (an async context manager's exit, a task group): a
+                        # cancelled render does not end in the iteration in which it is cancelled
+                        sim.probe("render_unwinds_slowly")
+                        await asyncio.sleep(0)
             return Message(payload=b"s=%d;r=%d" % (state, serial))
 
         def change_explicit(self):
